@@ -188,6 +188,8 @@ OP = st.one_of(
     # one object parsed several times with one-off keyword overrides (committed or not), then plainly: keywords do not outlive their call
     st.tuples(st.just("object_history"), st.sampled_from(["plss", "tract"]), st.integers(0, 40),
               st.lists(st.tuples(st.booleans(), st.integers(0, 7)), min_size=1, max_size=3)),
+    # the layout guessed for a text under a restricted list of candidates is nobody's business afterwards
+    st.tuples(st.just("deduce_layout_candidates"), st.integers(0, len(DESCS) - 1), st.integers(0, 5)),
     # a Tract that is first parsed as a dry run and then for good
     st.tuples(st.just("tract_dry_run_first"), st.integers(0, len(TRACTS) - 1), st.integers(1, 2)),
 ).map(list)
@@ -323,8 +325,23 @@ def oracle(c):
                     j = op[2] % len(DESCS)
                     text, cfg = DESCS[j]
                     obj = PLSSDesc(text, config=cfg)
+                    bad_step = None
                     for commit, k in op[3]:
-                        obj.parse(commit=commit, **OV_PLSS[k % len(OV_PLSS)])
+                        ov = OV_PLSS[k % len(OV_PLSS)]
+                        ret = obj.parse(commit=commit, **ov)
+                        # what this parse gives does not depend on the parses this object went through before: a new object, same call
+                        twin = PLSSDesc(text, config=cfg, wait_to_parse=True)
+                        want_ret = twin.parse(commit=commit, **ov)
+                        a = [[x.trs, x.desc, list(x.lots), list(x.qqs)] for x in ret]
+                        b = [[x.trs, x.desc, list(x.lots), list(x.qqs)] for x in want_ret]
+                        if a != b:
+                            bad_step = (ov, commit, a, b)
+                            break
+                    if bad_step:
+                        fails.append(Failure("history_dependence:same_object_plss:intermediate",
+                                             f"step {i}: {PROBES[j]} parsed before, then parse(commit={bad_step[1]}, {bad_step[0]}) returns {json.dumps(bad_step[2])[:300]}, a new object given the same call returns {json.dumps(bad_step[3])[:300]}",
+                                             probe=PROBES[j], ops=c["ops"][:i + 1]))
+                        break
                     obj.parse()
                     want = REFERENCE[(ns, ew, j)]
                     got = _norm({"pp": obj.pp_desc, "layout": obj.current_layout, "flags": sorted(map(str, obj.flags)),
@@ -349,6 +366,16 @@ def oracle(c):
                                          f"step {i}: {PROBES[jj]} after {steps} and a plain parse() gives {json.dumps(got)[:300]}, a fresh interpreter gives {json.dumps(want)[:300]}",
                                          probe=PROBES[jj], ops=c["ops"][:i + 1]))
                     break
+            elif name == "deduce_layout_candidates":
+                import itertools
+                from pytrs.parser import deduce_layout as _deduce
+                text, cfg = DESCS[op[1]]
+                pairs = list(itertools.combinations(["TRS_desc", "desc_STR", "S_desc_TR", "TR_desc_S"], 2))
+                cand = list(pairs[op[2] % len(pairs)])
+                w = PLSSDesc(text, config=cfg, wait_to_parse=True)
+                w.deduce_layout(candidates=cand)
+                _deduce(w.pp_desc, cand)
+                _deduce(text, cand)
             elif name == "tract_dry_run_first":
                 k = op[1]
                 desc, cfg = TRACTS[k]
@@ -496,7 +523,7 @@ SUBS = [
     Sub("histories", oracle, strategy=lambda tier: CASE, nontrivial=lambda c: bool(_last.get("nt")), classes=classes, render=lambda c: c,
         n={"quick": 1500, "thorough": 12000}, shards={"quick": 8, "thorough": 16},
         essential=("op=probe", "op=set_master", "op=clear_cache", "op=cache_off", "op=prewarm", "op=mutate_trs_dict", "op=mutate_outputs",
-                   "op=under_defaults", "op=create_deferred", "op=parse_deferred", "op=use_shared_config", "op=probe_shared_config", "op=tract_dry_run_first", "op=object_history", "nontrivial")),
+                   "op=under_defaults", "op=create_deferred", "op=parse_deferred", "op=use_shared_config", "op=probe_shared_config", "op=tract_dry_run_first", "op=object_history", "op=deduce_layout_candidates", "nontrivial")),
     Sub("after_any_parse", oracle_any, strategy=lambda tier: ANY_CASE, nontrivial=lambda c: bool(c["cfg"]) or bool(c["follow"]),
         classes=lambda c: _parsing.text_classes(c) + [f"follow={f}" for f in c["follow"]], render=lambda c: dict(_parsing.render(c), follow=c["follow"]),
         n={"quick": 700, "thorough": 8000}, shards={"quick": 6, "thorough": 16}, text_keys=("text",),
